@@ -56,7 +56,7 @@ def z3real(v):
     if isinstance(v, int):
         return z3.RealVal(v)
     if isinstance(v, float):
-        return z3.RealVal(Fraction(v).limit_denominator(10**18)) if v == v and abs(v) != float("inf") \
+        return z3.RealVal(Fraction(repr(v))) if v == v and abs(v) != float("inf") \
             else _unsup("non-finite float literal")
     if isinstance(v, Fraction):
         return z3.RealVal(v)
@@ -152,7 +152,10 @@ class Cx:
 def _num(v):
     """python float -> Fraction so that concrete arithmetic stays exact"""
     if isinstance(v, float):
-        return Fraction(v).limit_denominator(10**18)
+        # the decimal the programmer wrote (shortest round-trip representation), exactly
+        if v != v or abs(v) == float("inf"):
+            raise Unsupported("non-finite float")
+        return Fraction(repr(v))
     return v
 
 
